@@ -535,38 +535,46 @@ def norm_addr(addr):
     return tuple(c for c in (_norm_comp(a) for a in addr) if c is not None)
 
 
-def enumerate_map(chm):
-    """{normalised address: float32 value bytes} of a ChoiceMap made of Static / Indexed / Or / Choice
-    nodes (the node classes constraint maps are documented to be built from). Raises UnknownNode for
-    anything else, in which case the caller falls back to the representation-free data census."""
+def enumerate_map(chm, static=False):
+    """{normalised address: float32 value} of a ChoiceMap made of Static / Indexed / Or / Choice
+    (/ Switch) nodes. Raises UnknownNode for anything else, in which case the caller falls back to
+    the representation-free data census.  static=True reads the *static* content: masked-off values
+    and every branch of a Switch node count (what a structural check such as invalid_subset sees)."""
     from genjax import Mask
     from genjax._src.core.generative import choice_map as cm
 
     out = {}
+    info = {"switch_nodes": 0, "empty_switch_nodes": 0}
 
     def rec(c, prefix):
         if isinstance(c, cm.Choice):
             v = c.v
             if isinstance(v, Mask):
-                if not np.all(np.asarray(v.primal_flag())):
-                    return
+                if not static and not np.all(np.asarray(v.primal_flag())):
+                    return 0
                 v = v.value
-            key = prefix
-            if key in out:
-                raise UnknownNode("duplicate address")
-            out[key] = np.asarray(v, dtype=np.float32)
-        elif isinstance(c, cm.Static):
-            for k in c.mapping.keys():
-                rec(c(k), prefix + (k,))
-        elif isinstance(c, cm.Indexed):
-            rec(c.c, prefix + (_norm_comp(c.addr),))
-        elif isinstance(c, cm.Or):
-            rec(c.c1, prefix)
-            rec(c.c2, prefix)
-        else:
-            raise UnknownNode(type(c).__name__)
+            val = np.asarray(v, dtype=np.float32)
+            if prefix in out:
+                if not static or out[prefix].shape != val.shape or not np.array_equal(out[prefix], val):
+                    raise UnknownNode("duplicate address")
+            out[prefix] = val
+            return 1
+        if isinstance(c, cm.Static):
+            return sum(rec(c(k), prefix + (k,)) for k in c.mapping.keys())
+        if isinstance(c, cm.Indexed):
+            return rec(c.c, prefix + (_norm_comp(c.addr),))
+        if isinstance(c, cm.Or):
+            return rec(c.c1, prefix) + rec(c.c2, prefix)
+        if static and isinstance(c, cm.Switch):
+            n = sum(rec(b, prefix) for b in c.chms)
+            info["switch_nodes"] += 1
+            if n == 0:
+                info["empty_switch_nodes"] += 1
+            return n
+        raise UnknownNode(type(c).__name__)
 
     rec(chm, ())
+    enumerate_map.last_info = info
     return out
 
 
